@@ -145,4 +145,152 @@ theorem resume_exact (text : List Char) (lc : LineCounter) (h : Exact text lc) :
     Exact text ⟨lc.charPos, lc.line, lc.charPos - lc.lineStartPos + 1, lc.lineStartPos⟩ :=
   ⟨h.inb, h.line, h.start, rfl⟩
 
+
+/-! ### Token stamps: what `BasicLexer.next_token` writes into each token (lexer.py:694-702) -/
+
+/-- SPEC: 1-based (line, column) of offset `p` -/
+def coord (text : List Char) (p : Nat) : Nat × Nat :=
+  (1 + countNL (text.take p), p - lastNLEnd (text.take p) + 1)
+
+theorem Exact.coord_eq {text : List Char} {lc : LineCounter} (h : Exact text lc) :
+    (lc.line, lc.column) = coord text lc.charPos := by
+  simp [coord, h.line, h.col, h.start]
+
+structure Stamp where
+  startPos : Nat
+  line : Nat
+  column : Nat
+  endPos : Nat
+  endLine : Nat
+  endColumn : Nat
+deriving Repr, DecidableEq
+
+def Stamp.spec (text : List Char) (s e : Nat) : Stamp :=
+  ⟨s, (coord text s).1, (coord text s).2, e, (coord text e).1, (coord text e).2⟩
+
+/-- one iteration of `next_token`: stamp the start, `feed`, stamp the end -/
+def stampFeed (lc : LineCounter) (tok : List Char) (flag : Bool) : Stamp × LineCounter :=
+  let lc' := lc.feed tok flag
+  (⟨lc.charPos, lc.line, lc.column, lc'.charPos, lc'.line, lc'.column⟩, lc')
+
+/-- the lexer loop over a tiling: tokens `(value, type ∈ newline_types)` in order, counter threaded through -/
+def stampAll (lc : LineCounter) : List (List Char × Bool) → List Stamp
+  | [] => []
+  | (tok, flag) :: rest => (stampFeed lc tok flag).1 :: stampAll (stampFeed lc tok flag).2 rest
+
+/-- the offsets a tiling assigns, starting at `p` -/
+def specAll (text : List Char) (p : Nat) : List (List Char × Bool) → List Stamp
+  | [] => []
+  | (tok, _) :: rest => Stamp.spec text p (p + tok.length) :: specAll text (p + tok.length) rest
+
+def flatToks : List (List Char × Bool) → List Char
+  | [] => []
+  | (tok, _) :: rest => tok ++ flatToks rest
+
+theorem stampFeed_exact (pre tok post : List Char) (lc : LineCounter) (flag : Bool)
+    (hpos : lc.charPos = pre.length) (h : Exact (pre ++ tok ++ post) lc) (hflag : flag = true ∨ NL ∉ tok) :
+    (stampFeed lc tok flag).1 = Stamp.spec (pre ++ tok ++ post) pre.length (pre.length + tok.length) ∧
+    Exact (pre ++ tok ++ post) (stampFeed lc tok flag).2 ∧ (stampFeed lc tok flag).2.charPos = pre.length + tok.length := by
+  obtain ⟨hE, hcp⟩ := feed_exact pre tok post lc flag hpos h hflag
+  refine ⟨?_, hE, hcp⟩
+  have c1 := h.coord_eq
+  have c2 := hE.coord_eq
+  rw [hpos] at c1
+  rw [hcp] at c2
+  simp only [stampFeed, Stamp.spec, hpos, hcp]
+  rw [← c1, ← c2]
+
+/-- C06, basic/contextual lexers: along any tiling whose newline flags are sound, every token carries
+    exactly the source coordinates of its start and end. -/
+theorem stampAll_exact : ∀ (toks : List (List Char × Bool)) (pre post : List Char) (lc : LineCounter),
+    lc.charPos = pre.length → Exact (pre ++ flatToks toks ++ post) lc →
+    (∀ tf ∈ toks, tf.2 = true ∨ NL ∉ tf.1) →
+    stampAll lc toks = specAll (pre ++ flatToks toks ++ post) pre.length toks := by
+  intro toks
+  induction toks with
+  | nil => intro _ _ _ _ _ _; rfl
+  | cons tf rest ih =>
+    intro pre post lc hpos hE hfl
+    obtain ⟨tok, flag⟩ := tf
+    have htext : pre ++ flatToks ((tok, flag) :: rest) ++ post = pre ++ tok ++ (flatToks rest ++ post) := by
+      simp [flatToks, List.append_assoc]
+    have htext2 : pre ++ flatToks ((tok, flag) :: rest) ++ post = (pre ++ tok) ++ flatToks rest ++ post := by
+      simp [flatToks, List.append_assoc]
+    have hf := hfl (tok, flag) (List.mem_cons_self ..)
+    rw [htext] at hE
+    obtain ⟨h1, h2, h3⟩ := stampFeed_exact pre tok (flatToks rest ++ post) lc flag hpos hE hf
+    simp only [stampAll, specAll]
+    rw [htext, h1]
+    congr 1
+    have := ih (pre ++ tok) post (stampFeed lc tok flag).2 (by rw [h3]; simp)
+      (by rw [← htext2, htext]; exact h2) (fun tf h => hfl tf (List.mem_cons_of_mem _ h))
+    rw [this]
+    simp [List.append_assoc]
+
+/-! ### Dynamic Earley lexer: per-character counter (xearley.py:151-167) -/
+
+def dynStep (st : Nat × Nat) (c : Char) : Nat × Nat :=
+  if c = NL then (st.1 + 1, 1) else (st.1, st.2 + 1)
+
+/-- `(text_line, text_column)` when the main loop is at offset `i` -/
+def dynAt (text : List Char) (i : Nat) : Nat × Nat := (text.take i).foldl dynStep (1, 1)
+
+theorem lastNLEnd_le : ∀ s : List Char, lastNLEnd s ≤ s.length := by
+  intro s
+  induction s with
+  | nil => simp [lastNLEnd]
+  | cons c cs ih =>
+    simp only [lastNLEnd, List.length_cons]
+    split
+    · omega
+    · split <;> omega
+
+theorem dynFold_gen : ∀ (l : List Char) (a b : Nat),
+    l.foldl dynStep (a, b) = (a + countNL l, if NL ∈ l then l.length - lastNLEnd l + 1 else b + l.length) := by
+  intro l
+  induction l with
+  | nil => intro a b; simp [countNL]
+  | cons c cs ih =>
+    intro a b
+    simp only [List.foldl_cons, dynStep]
+    by_cases hc : c = NL
+    · subst hc
+      simp only [if_true]
+      rw [ih]
+      have hle := lastNLEnd_le cs
+      by_cases hm : NL ∈ cs
+      · simp [countNL, lastNLEnd, hm]; omega
+      · simp [countNL, lastNLEnd, hm]; omega
+    · simp only [hc, if_false]
+      rw [ih]
+      have hle := lastNLEnd_le cs
+      have hcnt : countNL (c :: cs) = countNL cs := by
+        simp [countNL, List.count_cons, hc]
+      rw [hcnt]
+      by_cases hm : NL ∈ cs
+      · simp [lastNLEnd, hm, Ne.symm hc]; omega
+      · simp [lastNLEnd, hm, Ne.symm hc]; omega
+
+theorem dynFold_eq (l : List Char) : l.foldl dynStep (1, 1) = (1 + countNL l, l.length - lastNLEnd l + 1) := by
+  rw [dynFold_gen]
+  by_cases hm : NL ∈ l
+  · simp [hm]
+  · simp [hm, lastNLEnd_of_not_mem l hm]; omega
+
+/-- C06, dynamic lexers: the running per-character counter is the coordinate of the current offset. -/
+theorem dynAt_eq_coord (text : List Char) (i : Nat) (h : i ≤ text.length) : dynAt text i = coord text i := by
+  simp only [dynAt, coord, dynFold_eq]
+  have : (text.take i).length = i := by simp; omega
+  rw [this]
+
+/-- the token stamp of the dynamic lexer: start = counter at `s`; end = one column past the last character,
+    on that character's line (the documented convention of this lexer family) -/
+def dynStamp (text : List Char) (s e : Nat) : Stamp :=
+  ⟨s, (dynAt text s).1, (dynAt text s).2, e, (dynAt text (e - 1)).1, (dynAt text (e - 1)).2 + 1⟩
+
+theorem dynStamp_exact (text : List Char) (s e : Nat) (h1 : s < e) (h2 : e ≤ text.length) :
+    dynStamp text s e = ⟨s, (coord text s).1, (coord text s).2, e, (coord text (e - 1)).1, (coord text (e - 1)).2 + 1⟩ := by
+  simp only [dynStamp]
+  rw [dynAt_eq_coord text s (by omega), dynAt_eq_coord text (e - 1) (by omega)]
+
 end LCProto
